@@ -128,6 +128,8 @@ def big_names(n, i, j, rev=False):
 def run_case(case):
     names = case["names"] if "big" not in case else big_names(*case["big"])
     lens = {"eq": LEN_EQ, "uneq": LEN_UNEQ, "one": LEN_ONE, "block1": LEN_BLOCK1}[case["lens"]]
+    if len(names) > len(lens):
+        lens = (list(lens) * (len(names) // len(lens) + 1))[:len(names)]
     if "big" in case:
         lens = [10 + (k % 3) for k in range(len(names))]
         lens[case["big"][1]] = lens[case["big"][2]] = 12
@@ -147,7 +149,7 @@ class Check(CheckBase):
     level = "exploration"
     title = "Left/right pairs merge into one stereo file; no sample is lost or duplicated"
     rule = ("all ordered k-tuples of sibling names (every ordering of every multiset) over a near-collision alphabet: AKAI "
-            "volume, 14 names, k<=3 (quick) / k<=4 (thorough), plus all 4-tuples over the reduced 6-name alphabet and over {A-L, A -R, A -L, A-R}; Roland "
+            "volume, 14 names, k<=3 (quick) / k<=4 (thorough), plus all 4-tuples over the reduced 6-name alphabet and over {A-L, A -R, A -L, A-R}; 3-tuples over {A, A., A L, A R, A. L, A. R} and all orders of the two dotted / undotted pairs; Roland "
             "performance, 11 names (incl. lower-case 'l' / 'r' endings, which are not L/R forms), k<=2 (quick) / k<=3 (thorough); equal lengths (10 frames), and unequal lengths, differing sample "
             "rates, single-frame samples and samples of 2049 frames (one more than the transcoder block) for k<=2 (quick) / "
             "all (thorough); AKAI header names that differ from the directory names (rotated among the siblings / 'DRUM L', 'DRUM R'), S1000- and S3000-type samples mixed in one volume, "
@@ -180,6 +182,12 @@ class Check(CheckBase):
         for k in (2, 3):
             for t in itertools.product(san, repeat=k):
                 cases.append({"fmt": "akai", "names": list(t), "lens": "eq", "sanitised": True})
+        # stems that end in a dot next to the same stem without it (names "tidied" after their uniqueness was established)
+        for t in itertools.product(["A", "A.", "A L", "A R", "A. L", "A. R"], repeat=3):
+            cases.append({"fmt": "akai", "names": list(t), "lens": "eq"})
+        for t in itertools.permutations(["A L", "A R", "A. L", "A. R"]):
+            cases.append({"fmt": "akai", "names": list(t), "lens": "eq"})
+            cases.append({"fmt": "akai", "names": list(t) + ["A"], "lens": "eq"})
         # duplicated halves with different separators (the '(n)' given to a duplicate must not create a new pair)
         for t in itertools.product(["A-L", "A -R", "A -L", "A-R"], repeat=4):
             cases.append({"fmt": "akai", "names": list(t), "lens": "eq"})
